@@ -7,6 +7,14 @@ ROOT = os.path.dirname(os.path.dirname(os.path.abspath(__file__)))
 
 # id -> (technique, level text, level note, design ref)
 CHECKS = {
+    "C11": ("Lean 4 theorems over option derivations regenerated from the Rust sources on every run, a recorded-options tie, and an end-to-end differential of all entry points",
+            "Kernel-checked over the regenerated derivations: for classic and every dialect (table-wise and for every dialect value) the library entry derives the same code-relevant pipeline as run -O; cldb derives the same as run for every dialect with a stepping, and provably not for sources without a sigil; detect_modern only returns table entries or classic, so this covers all programs; given the print->read round trip (C09) the re-assembled CLI text equals the library bytes under the stated integer-mode condition (witness that the condition is needed). Derivations, dialect table, defaults and get_optimizer thresholds are re-extracted from the sources on every run and compared with what the entry points hand to the compiler at runtime; the oracle compares all entry points' outputs (compile_clvm_text, compile_clvm file-to-file, run -O re-assembled, compile_modern, cldb) on generated and shipped programs x 7 dialects x include-path variants.",
+            "The compiler body is an arbitrary function of the pipeline (C05); the print/read round trip is a hypothesis (C09); python and wasm bindings are covered through the translator only; one open finding caused by C05.",
+            "DESIGN.md §4 C11"),
+    "C05": ("Lean 4 theorems over a regenerated inventory of statics and unordered-iteration sites plus a guard state machine; multi-history, multi-thread, multi-process differential of real compiles",
+            "Kernel-checked: the only mutable statics are the name counter and the integer-mode cell (inventory regenerated from the sources every run and cross-checked against the built binary's writable symbols); the RAII guard restores the mode on every exit path and nesting, observations depend only on the mode at entry, other threads are untouched; every discharged unordered-iteration consumer class is permutation-invariant for all inputs; the sites whose order-independence is not established are listed exactly as open obligations. The oracle repeats real compiles under counter, mode, history, thread and fresh-process (hash seed) variation and compares bytes and symbol entries. Partial: the compiler body itself is not proved pure.",
+            "Two open findings (cl22 leaked generated names; cl23+ deinline hash-order nondeterminism with fix diff); the site inventory is syntactic; hash seeds are sampled, not enumerated.",
+            "DESIGN.md §4 C05"),
     "C08": ("Lean 4 theorems over a hand model of the classic (de)serialiser (parametric in two facts re-read from the sources every run) against a clvmr spec model, plus an exhaustive differential run",
             "Proved for every configuration and all inputs: the encoder emits exactly clvmr's bytes (atoms < 2^34 bytes); the decoder that drops sub-read errors equals the error-propagating reading; it stops within 3|bs|+2 steps. Proved for the repaired configuration: decode after encode is the identity, decode = clvmr's on every input, every proper prefix is rejected. For the code as found the same under an explicit exclusion of 4+-byte length prefixes, with decide witnesses that the exclusion is necessary (get_u32 little-endian; 7-byte prefixes accepted). The two configuration facts are re-extracted from /repo on each run (translator) and the model is tied to the code by all inputs of length <= 2 (<= 3 thorough), every prefix width, truncation at every offset, bit flips, 1 MiB+ atoms; the clvmr oracle runs on the implementation alone.",
             "Lean kernel + the three standard axioms; stream buffer management and to_sexp_type are abstracted; the 5-byte length class is run on the implementation only; two open findings with fix diffs.",
